@@ -17,6 +17,8 @@ demo = open(os.path.join(src, "demo.py")).read()
 wt = "/tmp/wt/%s" % agent
 expr = '__import__("os").environ.get("SDP_TREE", "/repo")'
 demo = demo.replace('"%s"' % wt, expr).replace("'%s'" % wt, expr)
+ALT = "__import__('os').environ.get('SDP_TREE', '/repo')"
+demo = "\n".join(l.replace(expr, ALT) if (expr in l and l.lstrip().startswith('"')) else l for l in demo.split("\n"))
 demo = demo.replace("/tmp/seed_out/%s/%s/demo.py" % (agent, k), "/verif/seeded/%s/demo.py" % sid)
 demo = demo.replace(wt, "$SDP_TREE")
 open(os.path.join(dst, "demo.py"), "w").write(demo)
